@@ -630,6 +630,10 @@ class Interp:
                     raw, owner = k.__dict__[name], k
                     break
             if isinstance(raw, property) and raw.fget is not None and reflect.is_repo_function(raw.fget):
+                if self.registry is not None:
+                    ov = self.registry.attr_override(v, name)  # a contract's summary of that getter
+                    if ov is not None:
+                        return ov(self, v)
                 return self.call_repo(raw.fget, [v], {}, frame, cls_ctx=owner)
             if isinstance(raw, types.FunctionType) and reflect.is_repo_function(raw):
                 return BoundMethod(raw, v, owner)
